@@ -13,6 +13,7 @@ import (
 	"sort"
 	"sync"
 
+	"github.com/paulmach/orb"
 	"github.com/paulmach/orb/geojson"
 	"github.com/paulmach/osm"
 	"github.com/paulmach/osm/osmgeojson"
@@ -76,6 +77,58 @@ func convertWith(o *osm.OSM, opts []osmgeojson.Option) (fc *geojson.FeatureColle
 	}
 	out, err = json.Marshal(fc)
 	return fc, out, err
+}
+
+// scribble writes into everything of a result that can be written in place.
+func scribble(fc *geojson.FeatureCollection) {
+	for _, f := range fc.Features {
+		for _, v := range f.Properties {
+			switch m := v.(type) {
+			case map[string]string:
+				m["c17-scribble"] = "x"
+			case map[string]interface{}:
+				m["c17-scribble"] = "x"
+			case []interface{}:
+				for i := range m {
+					m[i] = "c17-scribble"
+				}
+			case []map[string]interface{}:
+				for i := range m {
+					if m[i] != nil {
+						m[i]["c17-scribble"] = "x"
+					}
+				}
+			}
+		}
+		f.Properties["c17-scribble"] = 1
+		bad := orb.Point{999, 999}
+		switch g := f.Geometry.(type) {
+		case orb.LineString:
+			for i := range g {
+				g[i] = bad
+			}
+		case orb.MultiLineString:
+			for _, l := range g {
+				for i := range l {
+					l[i] = bad
+				}
+			}
+		case orb.Polygon:
+			for _, l := range g {
+				for i := range l {
+					l[i] = bad
+				}
+			}
+		case orb.MultiPolygon:
+			for _, pg := range g {
+				for _, l := range pg {
+					for i := range l {
+						l[i] = bad
+					}
+				}
+			}
+		}
+	}
 }
 
 var (
@@ -154,6 +207,17 @@ func checkCase(r *kit.Run, d *Data) {
 		if b3, err := convert(o2, s, false); err != nil || string(b3) != string(b) {
 			nondet = true
 			viol(s, "determinism/independent-copy", fmt.Sprintf("conversion of an equal input differs (err=%v):\n%s\n%s", err, b, b3))
+		}
+
+		// the caller owns what Convert returned: after writing into every map and every
+		// coordinate list of a result, the next conversion still gives the same output
+		// (nothing a result holds may be shared with later results or with the input)
+		if fcs, _, err := convertWith(o, options(s, false)); err == nil {
+			scribble(fcs)
+			if b4, err := convert(o, s, false); err != nil || string(b4) != string(b) {
+				nondet = true
+				viol(s, "determinism/after-writing-into-a-result", fmt.Sprintf("the conversion that follows a write into every map and coordinate list of an earlier result differs (err=%v):\n%s\n%s", err, b, b4))
+			}
 		}
 
 		// the input is never modified
